@@ -436,6 +436,34 @@ func (ev *evaluator) boolTermPost(e *Expr, enc *EncInfo, p *EncPath) (*Term, err
 
 // ---------------------------------------------------------------- C03: one byte order per protocol
 
+// handRolledByte finds a byte of the output that is computed by dividing (shifting) a non-constant value.
+func handRolledByte(t *Term) *Term {
+	var hasDiv func(t *Term) bool
+	hasDiv = func(t *Term) bool {
+		if t.Op == "div" && !t.IsConst() {
+			return true
+		}
+		for _, a := range t.Args {
+			if hasDiv(a) {
+				return true
+			}
+		}
+		return false
+	}
+	if t.Op == "app" && t.Name == "unit" && len(t.Args) == 1 && hasDiv(t.Args[0]) {
+		return t
+	}
+	if t.Op == "app" && (t.Name == "Wd" || t.Name == "flat") {
+		return nil
+	}
+	for _, a := range t.Args {
+		if u := handRolledByte(a); u != nil {
+			return u
+		}
+	}
+	return nil
+}
+
 func collectOrders(t *Term, out *[]*Term) {
 	if t.Op == "app" {
 		switch t.Name {
@@ -473,6 +501,12 @@ func (V *Verifier) CheckOrders(mt *MsgType, enc *EncInfo, props []string) []*Obl
 			for j, o := range os {
 				out = append(out, mkOb(fmt.Sprintf("%s/byteorder/path(%s)/seg#%d.%d", mt.Name, key, k+1, j+1), props, Eq(o.Args[0], want), nil,
 					fmt.Sprintf("every multi-byte integer of a %s protocol message is %s: %s", ord, ord, tp.print(o)), mt.Name))
+			}
+			// a single byte computed by shifting a wider value is a hand-rolled integer encoding: its byte order
+			// cannot be read off a library call, so it is not accepted as being in the protocol's order
+			if u := handRolledByte(s); u != nil {
+				out = append(out, mkOb(fmt.Sprintf("%s/byteorder/path(%s)/seg#%d/hand-rolled-integer-bytes", mt.Name, key, k+1), props, False, nil,
+					fmt.Sprintf("every multi-byte integer of a %s protocol message is written by an encoder of known byte order; this byte is computed by shifting: %s", ord, tp.print(u)), mt.Name))
 			}
 		}
 	}
